@@ -88,6 +88,20 @@ def _loadable(kind, path):
     return True
 
 
+def _check_replaced(kind, path, data, label):
+    """'replaced by the new output': nothing of the old file survives inside the new one"""
+    if _S() and _S() in data:
+        raise Mismatch("%s: the old content of %s is still part of the file after the overwrite" % (label, os.path.basename(path)),
+                       observed="not_replaced", site=label, how="old_bytes_kept")
+    if kind == "zip":
+        import zipfile
+        with zipfile.ZipFile(path) as z:
+            names = z.namelist()
+        if len(set(names)) != len(names):
+            raise Mismatch("%s: archive %s has duplicate members after the overwrite: %s" % (label, os.path.basename(path), sorted(names)),
+                           observed="not_replaced", site=label, how="appended")
+
+
 def _judge(case, targets, prompts, kinds, before_listing, d, label):
     """targets: list of paths in the order they are written; case['exists'] in {'none','first','last','all'}"""
     confirm = case["confirm"]
@@ -101,6 +115,8 @@ def _judge(case, targets, prompts, kinds, before_listing, d, label):
             if not os.path.exists(t) or not _loadable(k, t):
                 raise Mismatch("%s: %s was not (re)written with a loadable output (confirm=%s, existed=%s)" % (label, os.path.basename(t), confirm, t in case["_pre"]),
                                observed="not_written", site=label)
+            if t in case["_pre"]:
+                _check_replaced(k, t, open(t, "rb").read(), label)
         return
     # confirmation required for every pre-existing target that is reached
     if not prompts:
@@ -118,6 +134,7 @@ def _judge(case, targets, prompts, kinds, before_listing, d, label):
                 if data == _S() or not _loadable(k, t):
                     raise Mismatch("%s: existing file %s was not replaced although the answer was 'y'" % (label, os.path.basename(t)),
                                    observed="not_replaced", site=label)
+                _check_replaced(k, t, data, label)
     if not confirmed:
         after = set(os.listdir(d))
         new = after - before_listing - set(os.path.basename(t) for t in targets)
